@@ -1122,19 +1122,24 @@ void Preprocessor::dump(std::ostream &out) const
 std::size_t Preprocessor::calculateHash(const std::string &toolinfo) const
 {
     std::string hashData = toolinfo;
+    // use all bytes of the line and column numbers (a single char wraps around at 256)
+    const auto addLocation = [&hashData](const simplecpp::Location &location) {
+        for (unsigned int shift = 0; shift < 32; shift += 8) {
+            hashData += static_cast<char>(location.line >> shift);
+            hashData += static_cast<char>(location.col >> shift);
+        }
+    };
     for (const simplecpp::Token *tok = mTokens.cfront(); tok; tok = tok->next) {
         if (!tok->comment) {
             hashData += tok->str();
-            hashData += static_cast<char>(tok->location.line);
-            hashData += static_cast<char>(tok->location.col);
+            addLocation(tok->location);
         }
     }
     for (const auto &filedata : mFileCache) {
         for (const simplecpp::Token *tok = filedata->tokens.cfront(); tok; tok = tok->next) {
             if (!tok->comment) {
                 hashData += tok->str();
-                hashData += static_cast<char>(tok->location.line);
-                hashData += static_cast<char>(tok->location.col);
+                addLocation(tok->location);
             }
         }
     }
